@@ -9,7 +9,7 @@ def filter_mux(predicate):
                 if type(i) is rs.OnNextMux:
                     try:
                         emit = predicate(i.item)
-                        if emit is True:
+                        if emit:
                             observer.on_next(i)
                     except Exception as e:
                         observer.on_next(rs.OnErrorMux(i.key, e, i.store))
